@@ -169,7 +169,7 @@ pub fn run(ctx: &mut Ctx) {
     });
     // wider operands: structured and uniform pairs, broadcast shape pairs
     let widths: Vec<usize> = (7..=16).chain([17, 24, 31, 32, 33, 63, 64, 65, 127, 128]).collect();
-    let total = ctx.q(15000, 300000);
+    let total = ctx.q(60000, 600000);
     ctx.cases("wide", total, |ctx, idx| {
         let w = widths[(idx as usize) % widths.len()];
         let o = ctx.rng.usize(8);
